@@ -14,8 +14,9 @@ N_QUICK = 2500
 N_THOROUGH = 30000
 RULE = ("1-4 inputs (sometimes 0) of intervals drawn from touching/nested/chained/identical/disjoint "
         "families on a 1..12 line over chromosomes chr1,chr2,chr10 (karyotypic vs lexical order differ) and "
-        "barcode pairs T1/T2 x N1/N2; both grouping modes; contig list absent / karyotypic / permuted; plain "
-        "Locatable objects and scheme-less MafRecords; four streams: valid (each input sorted by the chosen "
+        "barcode pairs T1/T2 x N1/N2; both grouping modes; contig list absent / karyotypic / permuted / 11-30 contigs "
+        "with records on both sides of position 10; plain Locatable objects, scheme-less MafRecords and gdc-1.0.0 "
+        "MafRecords read under Silent; four streams: valid (each input sorted by the chosen "
         "order), single defect (one adjacent descent, name-sorted under a contig list, missing contig), "
         "boundary (end==start touching, end+1==start, one-point, empty inputs, long chains), adversarial "
         "(start>end, false records, shuffled). Thorough tier adds the exhaustive enumeration of all layouts "
@@ -35,6 +36,27 @@ CHROMS = ["chr1", "chr2", "chr10"]
 KARYO = ["chr1", "chr2", "chr10"]
 COLS = ["Tumor_Sample_Barcode", "Matched_Norm_Sample_Barcode", "Chromosome", "Start_Position",
         "End_Position", "Reference_Allele", "Tumor_Seq_Allele2", "Id"]
+
+GDC_COLS = None
+GDC_VALS = {"Hugo_Symbol": "TP53", "Entrez_Gene_Id": "7157", "Center": "BI", "NCBI_Build": "GRCh38", "Chromosome": "chr1",
+            "Start_Position": "10", "End_Position": "11", "Strand": "+", "Variant_Classification": "Missense_Mutation",
+            "Variant_Type": "SNP", "Reference_Allele": "A", "Tumor_Seq_Allele1": "A", "Tumor_Seq_Allele2": "C",
+            "dbSNP_RS": "novel", "Tumor_Sample_Barcode": "T1", "Matched_Norm_Sample_Barcode": "N1",
+            "Verification_Status": "Unknown", "Validation_Status": "Untested", "Mutation_Status": "Somatic",
+            "Sequencer": "Illumina HiSeq 2000", "Tumor_Sample_UUID": "6e8d6b4c-3b1f-4c1e-9c3a-0a1b2c3d4e5f"}
+
+
+def gdc_cols():
+    """column names of the built-in scheme gdc-1.0.0, read from the tree under check
+    (never import maflib here: generation runs in the framework's main process)"""
+    global GDC_COLS
+    if GDC_COLS is None:
+        import json
+        import os
+        path = os.path.join(os.environ.get("VERIF_REPO", "/repo"), "maflib", "schemas", "gdc-1.0.0.json")
+        GDC_COLS = [c[0] for c in json.load(open(path))["columns"]]
+    return GDC_COLS
+
 
 # record layout inside a case: [id, truthy, tumor, normal, chrom, start, end, ref, alts]
 ID, TRU, TUM, NOR, CHR, ST, EN, REF, ALTS = range(9)
@@ -113,6 +135,23 @@ def build_objects(case):
     from maflib.locatable import LocatableByAllele
     from maflib.record import MafRecord
 
+    def gdc_line(r):
+        vals = dict(GDC_VALS, Hugo_Symbol="G%d" % r[ID], Chromosome=r[CHR], Start_Position=str(r[ST]),
+                    End_Position=str(r[EN]), Reference_Allele=r[REF], Tumor_Seq_Allele2=(r[ALTS][0] if r[ALTS] else ""),
+                    Tumor_Sample_Barcode=r[TUM], Matched_Norm_Sample_Barcode=r[NOR])
+        return "\t".join(vals.get(c, "") for c in gdc_cols())
+
+    if case["rectype"] == "gdc":
+        # real records of the built-in scheme, read by the public reader under Silent stringency
+        from maflib.reader import MafReader
+        from maflib.validation import ValidationStringency as VS
+        out = []
+        for inp in case["inputs"]:
+            lines = ["#version gdc-1.0.0", "\t".join(gdc_cols())] + [gdc_line(r) for r in inp if r[TRU]]
+            recs = iter(list(MafReader(lines=lines, validation_stringency=VS.Silent)))
+            out.append([next(recs) if r[TRU] else MafRecord() for r in inp])
+        return out
+
     def mk(r):
         if not r[TRU]:
             return MafRecord()          # zero columns: the false record
@@ -132,7 +171,10 @@ def build_objects(case):
 def rid_of(o):
     if hasattr(o, "rid"):
         return o.rid
-    return int(o.value("Id"))
+    v = o.value("Id")
+    if v is None:
+        v = o.value("Hugo_Symbol")[1:]      # gdc records carry their tag in Hugo_Symbol
+    return int(v)
 
 
 def exc_code(e):
@@ -146,6 +188,13 @@ def run_overlap(case):
     objs = build_objects(case)
     cnt = [Counting(x) for x in objs]
     kw = dict(contigs=case.get("contigs"), by_barcodes=case["by_barcodes"])
+    if case.get("peek_sub") and case["kind"] == 0:
+        from maflib.util import PeekableIterator
+
+        class FilteringPeekable(PeekableIterator):
+            """the documented extension point: a caller's own PeekableIterator subclass"""
+
+        kw["peekable_iterator_class"] = FilteringPeekable
     try:
         if case["kind"] == 0:
             it = LocatableOverlapIterator(cnt, **kw)
@@ -312,7 +361,8 @@ def classify(case, obs):
     srt = "-"
     if dom == "dom":
         srt = "sorted" if all(first_descent(case, i) is None for i in case["inputs"]) else "unsorted"
-    mode = ("bar" if case["by_barcodes"] else "coord") + ("+ctg" if case.get("contigs") else "")
+    nctg = len(case.get("contigs") or [])
+    mode = ("bar" if case["by_barcodes"] else "coord") + ("+ctg>10" if nctg > 10 else "+ctg" if nctg else "")
     return "%s/%s/%s/%s/n=%d" % (case["stream"], mode, dom, srt, len(case["inputs"]))
 
 
@@ -358,22 +408,39 @@ def _alts(rng):
     return [rng.choice(pool) for _ in range(rng.randint(2, 3))]
 
 
-def _records(rng, n, nchrom, nbar, family):
+def _records(rng, n, nchrom, nbar, family, pool=None):
     out = []
     for _ in range(n):
         a, b = _interval(rng, family)
         out.append([0, True, rng.choice(["T1", "T2"][:nbar]), rng.choice(["N1", "N2"][:nbar]),
-                    rng.choice(CHROMS[:nchrom]), a, b, rng.choice(["A", "C", "G"]), _alts(rng)])
+                    rng.choice(pool or CHROMS[:nchrom]), a, b, rng.choice(["A", "C", "G"]), _alts(rng)])
     return out
+
+
+def long_contigs(rng):
+    """a contig list with 11-30 entries and a pool of chromosomes on both sides of position 10
+    (ranks whose decimal spellings order differently from the numbers)"""
+    n = rng.randint(11, 30)
+    names = ["chr%d" % i for i in range(1, n + 1)]
+    if rng.random() < 0.3:
+        rng.shuffle(names)
+    low = rng.sample(names[1:10], rng.choice([1, 2]))
+    high = rng.sample(names[10:], min(len(names) - 10, rng.choice([1, 2])))
+    return names, low + high
 
 
 def _mkcase(rng, stream, recs_per_input, by_barcodes, contigs, rectype, kind=0, otype=0):
     case = {"stream": stream, "kind": kind, "otype": otype, "by_barcodes": by_barcodes,
             "contigs": contigs, "rectype": rectype, "inputs": recs_per_input, "calls": 0}
-    if rectype == "maf":
+    if rectype in ("maf", "gdc"):
+        # MafRecord.alts is always the one-element list [Tumor_Seq_Allele2]; scheme-less an empty cell is the
+        # allele ""; under gdc-1.0.0 an empty DnaString cell is rejected and the column dropped (alts then
+        # raises KeyError), so the deletion allele "-" stands in there
         for inp in recs_per_input:
             for r in inp:
-                r[ALTS] = r[ALTS][:1] if r[ALTS] else ["-"]   # MafRecord.alts is always one allele
+                r[ALTS] = r[ALTS][:1] if r[ALTS] else ([""] if rectype == "maf" else ["-"])
+                if rectype == "gdc" and r[ALTS] == [""]:
+                    r[ALTS] = ["-"]
     return case
 
 
@@ -389,9 +456,15 @@ def gen_base(rng, stream, kind=0, otype=0):
     by_barcodes = rng.random() < 0.5
     nbar = rng.choice([1, 2]) if by_barcodes else rng.choice([1, 1, 2])
     family = rng.choice(["point", "short", "any", "any"])
-    inputs = [_records(rng, rng.choice([0, 1, 2, 3, 4, 5]), nchrom, nbar, family) for _ in range(nin)]
+    pool = None
+    longc = None
+    if rng.random() < 0.25:
+        longc, pool = long_contigs(rng)
+    inputs = [_records(rng, rng.choice([0, 1, 2, 3, 4, 5]), nchrom, nbar, family, pool) for _ in range(nin)]
     r = rng.random()
-    if r < 0.35:
+    if longc:
+        contigs = longc
+    elif r < 0.35:
         contigs = None
     elif r < 0.7:
         contigs = list(KARYO)
@@ -400,7 +473,8 @@ def gen_base(rng, stream, kind=0, otype=0):
         rng.shuffle(contigs)
     if rng.random() < 0.1 and contigs:
         contigs = contigs + ["chrX", contigs[0]]      # unused and duplicated entries
-    rectype = "maf" if rng.random() < 0.4 else "loc"
+    q = rng.random()
+    rectype = "maf" if q < 0.3 else "gdc" if q < 0.42 else "loc"
     case = _mkcase(rng, stream, inputs, by_barcodes, contigs, rectype, kind, otype)
     return _sort_inputs(case)
 
@@ -596,6 +670,12 @@ def corpus():
     out.append(fix_ids({"stream": "corpus", "kind": 0, "otype": 0, "by_barcodes": True, "contigs": None, "rectype": "maf",
                         "inputs": [[_r(0, "chr1", 1, 3), _r(0, "chr1", 7, 9)], [_r(0, "chr1", 3, 5), _r(0, "chr1", 10, 10)],
                                    [_r(0, "chr1", 5, 7), _r(0, "chr1", 9, 9, t="T2")]], "calls": 0}))
+    # r2: ranks compared as text go wrong from the 11th contig on (chr3 before chr11 in a 25-contig list)
+    c25 = ["chr%d" % i for i in range(1, 26)]
+    for bb in (False, True):
+        out.append(fix_ids({"stream": "corpus", "kind": 0, "otype": 0, "by_barcodes": bb, "contigs": list(c25), "rectype": "loc",
+                            "inputs": [[_r(0, "chr3", 1, 5), _r(0, "chr11", 1, 5)], [_r(0, "chr2", 4, 4), _r(0, "chr10", 2, 9), _r(0, "chr11", 5, 6)]],
+                            "calls": 0}))
     # an adjacent descent
     out.append(fix_ids({"stream": "corpus", "kind": 0, "otype": 0, "by_barcodes": False, "contigs": None, "rectype": "loc",
                         "inputs": [[_r(0, "chr1", 1, 2), _r(0, "chr1", 8, 9), _r(0, "chr1", 4, 5)], [_r(0, "chr1", 2, 3)]],
@@ -615,5 +695,5 @@ def shrink(case):
         for j in range(len(ins[i])):
             yield fix_ids(dict(case, inputs=[[list(r) for jj, r in enumerate(x) if not (k == i and jj == j)]
                                             for k, x in enumerate(ins)]))
-    if case.get("rectype") == "maf":
+    if case.get("rectype") in ("maf", "gdc"):
         yield dict(case, rectype="loc")
